@@ -39,7 +39,8 @@ import FqModel.Reasm
        captured / cut inside the link header); both worlds see of it what `visiblePayload` says.
        Fixed in /repo and no longer excused: defrag-length (8dc84a5a), fsm-reorder (1ef5f83b), pcapng-shb-section and
        pcapng-section-length (501642c1), tcp-header-cut (e2e770fa).
-    6. `linktable`: the dispatch table dumped from the binary under test must equal `linkToDecodeFn`.
+    6. `linktable`: the dispatch table dumped from the binary under test must contain `linkToDecodeFn` (every link
+       type the generator uses, mapped as the model says); further entries are only counted by the harness.
 -/
 open FqModel FqModel.Proto FqModel.Reasm
 
@@ -695,12 +696,25 @@ def stepCap (k : Case) (o : Obs) : String := Id.run do
     return s!"KNOWN seq-wrap {refF.propfail.head!}{suffix}"
   return s!"PROPFAIL {refF.propfail.head!}{suffix}"
 
+/-- `linktable`: every link type the model / generator USES must be dispatched to the decoder the model expects
+    (`linkToDecodeFn`); a missing or re-mapped one is a divergence.  Further entries of fq's table (link types
+    the generator does not write) are not the property's business: the harness reports them as a statistic. -/
 def stepTable (obs : String) : String :=
-  let model := [0, 1, 101, 113, 228, 229, 276].filterMap fun n => (linkToDecodeFn n).map fun d => s!"{n}={d.name}"
-  -- no other link type is served
-  let extra := (List.range 400).filter fun n => (linkToDecodeFn n).isSome && ![0, 1, 101, 113, 228, 229, 276].contains n
-  if !extra.isEmpty then "BADOP model-table"
-  else verdict (" ".intercalate model) obs
+  let used := [0, 1, 101, 113, 228, 229, 276]
+  let model := used.filterMap fun n => (linkToDecodeFn n).map fun d => (s!"{n}", d.name)
+  -- the model serves nothing but the link types the generator uses
+  let extra := (List.range 400).filter fun n => (linkToDecodeFn n).isSome && !used.contains n
+  if !extra.isEmpty || model.length != used.length then "BADOP model-table"
+  else
+    let entries := (words obs).map fun w => match w.splitOn "=" with
+      | [a, b] => (a, b)
+      | _ => (w, "")
+    if entries.any (fun e => e.2 == "") then "BADOP obs"
+    else
+      let bad := model.filter fun (n, d) => entries.lookup n != some d
+      match bad with
+      | [] => "OK"
+      | _ => s!"DIVERGE model={" ".intercalate (bad.map fun (n, d) => s!"{n}={d}")} (fq: {" ".intercalate (bad.map fun (n, _) => s!"{n}={(entries.lookup n).getD "-"}")})"
 
 def stepC19 (op obs : String) : String :=
   if op == "linktable" then stepTable obs
